@@ -841,6 +841,7 @@ qb_log_init(const char *name, int32_t facility, uint8_t priority)
 		conf[i].debug = QB_FALSE;
 		conf[i].file_sync = QB_FALSE;
 		conf[i].extended = QB_TRUE;
+		conf[i].threaded = QB_FALSE;
 		conf[i].state = QB_LOG_STATE_UNUSED;
 		(void)strlcpy(conf[i].name, name, PATH_MAX);
 		conf[i].facility = facility;
@@ -922,6 +923,7 @@ qb_log_target_free(struct qb_log_target *t)
 	(void)qb_log_filter_ctl(t->pos, QB_LOG_FILTER_CLEAR_ALL,
 				QB_LOG_FILTER_FILE, NULL, 0);
 	t->debug = QB_FALSE;
+	t->threaded = QB_FALSE;
 	t->filename[0] = '\0';
 	qb_log_format_set(t->pos, NULL);
 	_log_target_state_set(t, QB_LOG_STATE_UNUSED);
